@@ -292,8 +292,15 @@ def r8_9(ctx):
                       f"ProgressBar emits `{show(s.cur)}` cells on path [{conds}], not its width `{show(wv.form)}`: the bar is shorter or longer than the space it was given")
     ctx.floor(n, 3, "colour paths through ProgressBar.__rich_console__")
     wd = [x for x in walk_local(f.node) if isinstance(x, ast.Assign) and norm(x.targets[0]) == "width"]
-    ok = len(wd) == 1 and isinstance(wd[0].value, ast.Call) and norm(wd[0].value.func) == "min" and any(norm(a) == "options.max_width" for a in wd[0].value.args)
-    ctx.check(ok, f.fq, norm(wd[0]) if wd else "?", f.where, "bar width capped by options.max_width", "ProgressBar's width is not min(..., options.max_width): a bar can exceed the width it is given")
+    from ..astutil import inline as _inl89, single_defs as _sdf89
+    _sd89 = {k_: v_ for k_, v_ in _sdf89(f.node).items() if k_ != "width"}
+    if len(wd) != 1:
+        raise AnalysisError("ProgressBar.__rich_console__: the bar's `width` is not assigned exactly once; the cap by options.max_width is not decided")
+    wv_ = _inl89(wd[0].value, _sd89)
+    capped = isinstance(wv_, ast.Call) and norm(wv_.func) == "min" and any(norm(a) == "options.max_width" for a in wv_.args)
+    if not capped and "options.max_width" in norm(wv_) and not (isinstance(wv_, ast.Call) and norm(wv_.func) == "min"):
+        raise AnalysisError(f"ProgressBar.__rich_console__: width is `{norm(wv_)}`; cannot tell whether options.max_width caps it")
+    ctx.check(capped, f.fq, norm(wd[0]), f.where, "bar width capped by options.max_width", "ProgressBar's width is not min(..., options.max_width): a bar can exceed the width it is given")
     # glyphs are single cells
     from .c07 import _cell_width_fn
     cw = _cell_width_fn(ctx)
@@ -501,7 +508,7 @@ def r8_12(ctx):
     sd = _sdf(f.node)
     sites = []
     for x in walk_local(f.node):
-        if isinstance(x, ast.BinOp) and isinstance(x.op, ast.Div) and norm(x.right) == "self.total":
+        if isinstance(x, ast.BinOp) and isinstance(x.op, ast.Div) and norm(_inl(x.right, sd)) == "self.total":
             facs = []
 
             def factors(e):
@@ -533,10 +540,14 @@ def r8_12(ctx):
                     for j in (0, 1):
                         b2, inner = rest.args[j], rest.args[1 - j]
                         hi, lo = (bound, b2) if outer == "min" else (b2, bound)
-                        if norm(hi) == "self.total" and isinstance(lo, ast.Constant) and lo.value == 0:
+                        if norm(_inl(hi, sd)) == "self.total" and isinstance(lo, ast.Constant) and lo.value == 0:
                             return (lo, hi, inner)
             return None
         c = clamp(X)
+        if c is None:
+            # bounds written through temporaries (total = self.total)
+            X2 = ast.parse(norm(X).replace("total", "total"), mode="eval").body
+            c = clamp(X2)
         if c is not None and norm(c[2]) == "self.completed":
             ctx.ok(where, "fill computed from min(self.total, max(0, self.completed))", f.fq)
         elif norm(X) == "self.completed" or (c is None and "self.completed" in norm(X) and "min(" not in norm(X)):
